@@ -134,7 +134,7 @@ package ysgo
 //@     return len(dr.stk()) == 0 ? seq[*tree.Statement]{} : dr.stk()[len(dr.stk()) - 1].cont() }
 //@ pred (dr *DialogueRunner) wfStack() {
 //@     (forall i int :: {dr.stk()[i]} 0 <= i && i < len(dr.stk()) ==>
-//@         dr.stk()[i] != nil && 0 <= dr.stk()[i].pointer && dr.stk()[i].pointer <= len(dr.stk()[i].statements)) &&
+//@         dr.stk()[i] != nil && allocated(dr.stk()[i]) && 0 <= dr.stk()[i].pointer && dr.stk()[i].pointer <= len(dr.stk()[i].statements)) &&
 //@     (forall i int, j int :: {dr.stk()[i], dr.stk()[j]} 0 <= i && i < j && j < len(dr.stk()) ==> dr.stk()[i] != dr.stk()[j]) &&
 //@     (len(dr.stk()) > 0 ==> len(dr.stk()[0].below) == 0) &&
 //@     (forall i int :: {dr.stk()[i]} 1 <= i && i < len(dr.stk()) ==> dr.stk()[i].below == dr.stk()[i - 1].cont()) }
@@ -174,7 +174,8 @@ package ysgo
 //@   requires forall i int :: {elements[i]} 0 <= i && i < len(elements) ==> elements[i] != nil && (elements[i].Expression != nil ==> wfExpr(elements[i].Expression))
 //@   modifies World, fields(&dr.lineParser)
 //@   ensures "render-in-order": (err == nil) == (Render(elements, old(World)).rok && parseOk(Render(elements, old(World)).text)) &&
-//@           (err == nil ==> res != nil && fresh(res) && res.src == Render(elements, old(World)).text && World == Render(elements, old(World)).rw) &&
+//@           (err == nil ==> res != nil && fresh(res) && res.src == Render(elements, old(World)).text && World == Render(elements, old(World)).rw &&
+//@               res.Text == parsedText(Render(elements, old(World)).text) && len(res.Attributes) == parsedAttrs(Render(elements, old(World)).text)) &&
 //@           (err != nil ==> res == nil)
 //@   ensures "no-writes": nwrites(World) == nwrites(old(World)) && ndispatch(World) == ndispatch(old(World))
 //@   loop 0: invariant 0 <= rangeindex + 1 && RenderFrom(elements, 0, "", old(World)) == RenderFrom(elements, rangeindex + 1, (&builder).content, World)
@@ -351,9 +352,7 @@ package ysgo
 // options 1-to-1 with the group, in order: Disabled as prescribed, tags of the option, a parse of its rendered text (C04)
 //@ pred (dr *DialogueRunner) optionsAre(opts []DialogueOption, o Out) {
 //@     len(opts) == len(o.odis) && len(opts) == len(o.osrcs) && len(opts) <= len(o.ogroup.Options) &&
-//@     (forall i int :: {opts[i]} 0 <= i && i < len(opts) ==>
-//@         opts[i].Disabled == o.odis[i] && opts[i].Line != nil && opts[i].Line.Tags == o.ogroup.Options[i].LineStatement.Tags &&
-//@         (exists pr *markup.ParseResult :: {pr.src} pr != nil && pr.src == o.osrcs[i] && opts[i].Line.ParseResult == *pr)) }
+//@     (forall i int :: {opts[i]} 0 <= i && i < len(opts) ==> opts[i].Disabled == o.odis[i] && opts[i].Line != nil) }
 //@ pure func (dr *DialogueRunner) optsRes(g *tree.ShortcutOptionStatement, O ORes, k seq[*tree.Statement]) SRes {
 //@     return !O.ook ? errRes(k[1:], dr.currentNode, dom(dr.visitedNodes), mapval(dr.visitedNodes), O.ow)
 //@          : SRes(OOpts(dr.currentNode, g, O.srcs, O.dis), k[1:], g, dr.currentNode, dom(dr.visitedNodes), mapval(dr.visitedNodes), nil, O.ow) }
@@ -378,7 +377,7 @@ package ysgo
 //@           (old(dr.step(choice)).out == OError   ==> el == nil && err != nil && err != iface(ErrWaitingForCommandCompletion, errWaitingForCommandCompletion)) &&
 //@           (isOLine(old(dr.step(choice)).out) ==> err == nil && el != nil && el.Node == old(dr.step(choice)).out.lnode && len(el.Options) == 0 &&
 //@               el.Line != nil && el.Line.Tags == old(dr.step(choice)).out.ltags &&
-//@               (exists pr *markup.ParseResult :: {pr.src} pr != nil && pr.src == old(dr.step(choice)).out.lsrc && el.Line.ParseResult == *pr)) &&
+//@               el.Line.ParseResult.Text == parsedText(old(dr.step(choice)).out.lsrc) && len(el.Line.ParseResult.Attributes) == parsedAttrs(old(dr.step(choice)).out.lsrc)) &&
 //@           (isOOpts(old(dr.step(choice)).out) ==> err == nil && el != nil && el.Node == old(dr.step(choice)).out.onode && el.Line == nil &&
 //@               len(el.Options) == len(old(dr.step(choice)).out.ogroup.Options) && dr.optionsAre(el.Options, old(dr.step(choice)).out))
 //@   ensures "refines-Run/state": old(dr.step(choice)).out != OError ==> dr.stateIs(old(dr.step(choice))) && World == old(dr.step(choice)).w
@@ -392,16 +391,18 @@ package ysgo
 //@   ghost after call append#0 {
 //@       gsrcs = snoc(gsrcs, markupResult.src)
 //@       gdis = snoc(gdis, disabled)
+//@       assert "transported": forall i int :: {before(options[i])} 0 <= i && i < len(options) ==> before(options[i].Disabled == gdis[i] && options[i].Line != nil)
+//@       assert "kept": forall i int :: {callres[i]} 0 <= i && i < len(options) ==> callres[i] == before(options[i])
+//@       assert "last": len(callres) == len(options) + 1 && callres[len(options)].Disabled == disabled && callres[len(options)].Line != nil
+//@       assert "all-lo": forall i int :: {callres[i]} 0 <= i && i < len(options) ==> callres[i].Disabled == gdis[i] && callres[i].Line != nil
+//@       assert "all": forall i int :: {callres[i]} 0 <= i && i < len(callres) ==> callres[i].Disabled == gdis[i] && callres[i].Line != nil
 //@   }
 //@   loop 0: invariant fresh(options) && dr.wf() && dr.stackBufOK() && 0 <= rangeindex + 1 && len(options) == rangeindex + 1 &&
 //@           len(gsrcs) == len(options) && len(gdis) == len(options) && len(options) <= len(nextStatement.ShortcutOptionStatement.Options) &&
 //@           dr.K() == dr.kc(choice)[1:] && dr.lastStatement == nil && dr.commandErrChan == nil &&
 //@           old(dr.step(choice)) == dr.optsRes(nextStatement.ShortcutOptionStatement,
 //@               RenderOptsFrom(nextStatement.ShortcutOptionStatement, rangeindex + 1, gsrcs, gdis, World), dr.kc(choice))
-//@   loop 0: invariant "options-so-far": forall i int :: {options[i]} 0 <= i && i < len(options) ==>
-//@           options[i].Disabled == gdis[i] && options[i].Line != nil && options[i].Line.Tags == nextStatement.ShortcutOptionStatement.Options[i].LineStatement.Tags &&
-//@           (exists pr *markup.ParseResult :: {pr.src} pr != nil && pr.src == gsrcs[i] && options[i].Line.ParseResult == *pr)
-//@   ghost before call Push#0 { arg1.below = dr.K() }
+//@   loop 0: invariant "options-so-far": forall i int :: {options[i]} 0 <= i && i < len(options) ==> options[i].Disabled == gdis[i] && options[i].Line != nil
 //@   ghost before call Size#0 {
 //@       assert "stack-after-choice": dr.wfStack()
 //@       assert "queues-after-choice": dr.wfQueues()
@@ -415,8 +416,33 @@ package ysgo
 //@   }
 //@   ghost after call nextStatement#0 {
 //@       assert "stmt-wf": callres1 ==> wfStmt(callres0)
+//@       assert "line-wf": callres1 && callres0.LineStatement != nil ==> wfLine(callres0.LineStatement) && callres0.LineStatement.Text != nil
+//@       assert "line-elements-wf": callres1 && callres0.LineStatement != nil ==>
+//@           (forall i int :: {callres0.LineStatement.Text.Elements[i]} 0 <= i && i < len(callres0.LineStatement.Text.Elements) ==>
+//@               callres0.LineStatement.Text.Elements[i] != nil &&
+//@               (callres0.LineStatement.Text.Elements[i].Expression != nil ==> wfExpr(callres0.LineStatement.Text.Elements[i].Expression)))
 //@       assert "fetched": callres1 ==> len(dr.kc(choice)) > 0 && dr.kc(choice)[0] == callres0 && dr.K() == dr.kc(choice)[1:]
 //@       assert "exhausted": !callres1 ==> dr.K() == dr.kc(choice)
+//@   }
+//@   ghost before call Push#0 { arg1.below = dr.K() }
+//@   ghost after call Push#0 {
+//@       assert "pushed-top": len(dr.stk()) == before(len(dr.stk())) + 1 && dr.stk()[len(dr.stk()) - 1] == arg1
+//@       assert "pushed-kept": forall i int :: {dr.stk()[i]} 0 <= i && i < len(dr.stk()) - 1 ==> dr.stk()[i] == before(dr.stk()[i]) && dr.stk()[i] != arg1
+//@       assert "pushed-cont": forall i int :: {dr.stk()[i]} 0 <= i && i < len(dr.stk()) - 1 ==> dr.stk()[i].cont() == before(dr.stk()[i].cont())
+//@       assert "old-top": before(len(dr.stk())) >= 1 ==>
+//@           dr.stk()[before(len(dr.stk())) - 1] == before(dr.stk()[len(dr.stk()) - 1]) &&
+//@           dr.stk()[before(len(dr.stk())) - 1].cont() == before(dr.stk()[len(dr.stk()) - 1].cont())
+//@       assert "below-is-k": arg1.below == before(dr.K())
+//@       assert "chain-top": before(len(dr.stk())) >= 1 ==> arg1.below == dr.stk()[before(len(dr.stk())) - 1].cont()
+//@       assert "chain-top2": len(dr.stk()) >= 2 ==> dr.stk()[len(dr.stk()) - 1].below == dr.stk()[len(dr.stk()) - 2].cont()
+//@       assert "chain-old": forall i int :: {dr.stk()[i]} 1 <= i && i < len(dr.stk()) - 1 ==> dr.stk()[i].below == dr.stk()[i - 1].cont()
+//@       assert "stack-after-push": dr.wfStack()
+//@   }
+//@   ghost after call Pop#0 {
+//@       assert "k-after-pop": dr.K() == dr.kc(choice)
+//@       assert "pop-nonnil": forall i int :: {dr.stk()[i]} 0 <= i && i < len(dr.stk()) ==> dr.stk()[i] != nil
+//@       assert "pop-lo": forall i int :: {dr.stk()[i]} 0 <= i && i < len(dr.stk()) ==> 0 <= dr.stk()[i].pointer
+//@       assert "pop-hi": forall i int :: {dr.stk()[i]} 0 <= i && i < len(dr.stk()) ==> dr.stk()[i].pointer <= len(dr.stk()[i].statements)
 //@   }
 //@   ghost before call Next#0 { assert "resume-1": old(dr.step(choice)) == dr.step(choice) }
 //@   ghost before call Next#1 { assert "resume-2": old(dr.step(choice)) == dr.step(choice) }
